@@ -125,7 +125,9 @@ func LinkChildrenToParents(root Role) {
 
 func MakeDisabledRoleCallback(r Role) func(stage template.Stage, err error) error {
 	return func(stage template.Stage, err error) error {
-		if stage == template.STAGE0 { // only `enabled` has been processed so far
+		// only `enabled` has been processed so far; if it could not be evaluated
+		// the role is not disabled, the template is broken: the error goes through
+		if stage == template.STAGE0 && err == nil {
 			if !r.IsEnabled() {
 				rde := &template.RoleDisabledError{RolePath: r.GetPath()}
 				return rde
